@@ -648,6 +648,8 @@ where
 struct ByteDelimitedArgumentReader<R: Read> {
     rd: BufReader<R>,
     delimiter: u8,
+    /// Whether two delimiters in a row enclose an (empty) argument.
+    keep_empty: bool,
 }
 
 impl<R> ByteDelimitedArgumentReader<R>
@@ -658,7 +660,15 @@ where
         Self {
             rd: BufReader::new(rd),
             delimiter,
+            keep_empty: false,
         }
+    }
+
+    /// With -0 and -d every field is an argument, also an empty one (lines,
+    /// the items of -I, are skipped when empty).
+    fn keep_empty(mut self, keep_empty: bool) -> Self {
+        self.keep_empty = keep_empty;
+        self
     }
 }
 
@@ -673,7 +683,7 @@ where
             if bytes_read > 0 {
                 let need_to_trim_delimiter = buf[buf.len() - 1] == self.delimiter;
                 let bytes = if need_to_trim_delimiter {
-                    if buf.len() == 1 {
+                    if buf.len() == 1 && !self.keep_empty {
                         // This was *only* a delimiter, so we didn't actually
                         // read anything interesting. Try again.
                         continue;
@@ -1086,7 +1096,10 @@ fn do_xargs(args: &[&str]) -> Result<CommandResult, XargsError> {
     };
 
     let args: Box<dyn ArgumentReader> = if let Some(delimiter) = delimiter {
-        Box::new(ByteDelimitedArgumentReader::new(args_file, delimiter))
+        let explicit_delimiter = options.null || options.delimiter.is_some();
+        Box::new(
+            ByteDelimitedArgumentReader::new(args_file, delimiter).keep_empty(explicit_delimiter),
+        )
     } else {
         Box::new(WhitespaceDelimitedArgumentReader::new(args_file))
     };
